@@ -1,5 +1,6 @@
 import VtProofs.JsonGrammar
 import VtProofs.JsonTotal
+import VtProofs.Ndjson
 import VtProofs.TileJsonMerge
 /-!
 # C17 — JSON round trips and containers hand back the TileJSON they were given
@@ -95,6 +96,20 @@ theorem parse_total (ops : NumOps N) (input : Bytes) :
     a successful parse never leaves more input than it was given -/
 theorem parseValue_total (ops : NumOps N) (it : Iter) (f : Nat) (hf : 2 * it.rest.length + 3 ≤ f) :
     Good it.rest.length (parseValue ops f it) := (total_aux ops f).1 it hf
+
+/-! ### NDJSON reader (`json/read.rs`) -/
+
+/-- the reader handles every line on its own: items of `line ++ "\n" ++ rest` = item of `line`
+    (none if blank) followed by the items of `rest` -/
+theorem ndjson_per_line (ops : NumOps N) (a rest : Bytes) (h : ∀ b ∈ a, b ≠ 0x0a) :
+    VtModel.Ndjson.readNdjson ops (a ++ 0x0a :: rest)
+      = (VtModel.Ndjson.processLine ops (a ++ [0x0a])).toList ++ VtModel.Ndjson.readNdjson ops rest :=
+  VtProofs.Ndjson.readNdjson_split ops a rest h
+
+/-- every item is a value or an error, for every byte string (no panic, no exhausted fuel) -/
+theorem ndjson_ok_or_err (ops : NumOps N) (input : Bytes) :
+    ∀ r ∈ VtModel.Ndjson.readNdjson ops input, (∃ v, r = .ok v) ∨ r = .err :=
+  VtProofs.Ndjson.readNdjson_ok_or_err ops input
 
 /-! ### non-vacuity -/
 
